@@ -124,7 +124,7 @@ def model_stdout(t, explicit):
 
 def gen_tree(rng):
     t = Tree()
-    roots = ["r0"] if rng.random() < 0.6 else ["r0", "r1"]
+    roots = ["r0"] if rng.random() < 0.5 else (["r0", "r1"] if rng.random() < 0.6 else ["r%d" % k for k in range(rng.randint(3, 6))])
     instants = [946684800_000_000_000 + i * 1_000_000_000 for i in range(4)]
     fid = [0]
 
@@ -208,12 +208,15 @@ def gen_tree(rng):
     return t, roots
 
 
-def to_scenario(rng, t, argv, stdin):
+def to_scenario(rng, t, argv, stdin, pool=None):
     specs = [core.FileSpec(p, d, 1600000000) for p, d in t.files.items()]
     rng.shuffle(specs)      # creation order on disk is part of the scenario
     for lp, tgt in list(t.links.items()) + list(t.broken.items()):
         specs.append(core.FileSpec(lp, b"", None, tgt))
-    return core.Scenario(specs, argv, stdin, "UTC", sorted(t.dirs))
+    scn = core.Scenario(specs, argv, stdin, "UTC", sorted(t.dirs))
+    if pool:
+        scn.env["RAYON_NUM_THREADS"] = str(pool)      # the size of the pool the directory walks run on: a machine with 1 or 2 cpus
+    return scn
 
 
 def run_case(seed, i, tier):
@@ -262,6 +265,7 @@ def run_case(seed, i, tier):
     prng = core.rng_for(seed, PROP, i, "plan")
     plan = core.random_plan(prng, max(1, len(explicit)), budget=3_000_000)
     plan.hashseed = rng.getrandbits(32)
+    pool = rng.choice((None, None, None, 1, 2, 2))
     ref = None
     # the absolute part: the explicit list against a model of the merge (skipped when a path occurs twice in it: what naming
     # a file twice prints is compared across the forms only)
@@ -269,7 +273,7 @@ def run_case(seed, i, tier):
     if want is not None:
         cr.probes["explicit_form_checked_against_model"] += 1
     for (name, argv, stdin) in forms:
-        scn = to_scenario(core.random.Random(rng.getrandbits(32)), t, argv, stdin)
+        scn = to_scenario(core.random.Random(rng.getrandbits(32)), t, argv, stdin, pool)
         res = core.execute(scn, plan)
         tr = res.trace
         cr.runs += 1
@@ -304,6 +308,10 @@ def run_case(seed, i, tier):
     cr.sample = {"args": args, "explicit_expansion": explicit, "symlinks": t.links, "unfollowable_links": t.broken, "files": len(t.files)}
     if t.broken:
         cr.probes["tree_with_unfollowable_links"] += 1
+    if pool:
+        cr.probes["walk_pool_of_%d_threads" % pool] += 1
+    if len(roots) > 2:
+        cr.probes["three_to_six_directories_named"] += 1
     return cr
 
 
